@@ -282,6 +282,10 @@ CreateFileListInfo(FileListInfoPtr pFileListInfo, char* path, int flag)
 
 			memset(fullpath, 0, PATH_MAX);
 
+			/* path, a separator and the entry name must fit fullpath[] */
+			if(strlen(path) + 1 + strlen(pDirent->d_name) >= PATH_MAX)
+				continue;
+
 			strcpy(fullpath, path);
 			if(path[strlen(path)-1] != '/')
 				strcat(fullpath, "/");
